@@ -32,24 +32,25 @@ DEFECTS = [
     ("ws-multi-get-leak", "wsone"),
     ("ft-fd-leak", "ft"),
     ("extension-node-leak", "ext"),
+    ("cleanup-extension-close-skipped", "extclose"),
 ]
 HARMFUL = ("eof", "reset", "stall")
 KINDS = ("eof", "reset", "stall", "short", "again")
-MSG_OPS = ("ver", "sec", "init", "enc", "req", "scale", "pf", "key", "junk", "partial", "ft",
+MSG_OPS = ("ver", "sec", "auth", "init", "enc", "req", "scale", "pf", "key", "ptr", "junk", "partial", "ft", "ftgo",
            "closepeer", "resetpeer")
 # "ultra" is left out: minilzo does unaligned 32-bit loads by design, which the UBSan build of the
 # code under test turns into an abort (not a life-cycle matter)
-REFUSED = (49, 50, 64, 65, 100, 200, 255)     # 48/k == 0 (and 64/k == 0 from 65 on)
+REFUSED = (97, 100, 128, 129, 200, 255)       # 96/k == 0 (and 128/k == 0 from 129 on)
 ENCS = ("raw", "rre", "corre", "hextile", "zlib", "tight", "zrle")
 
 
 # ------------------------------------------------------------------------------------ parsing
 class Line:
-    __slots__ = ("raw", "events", "conns", "refs", "stray", "unknown", "kind")
+    __slots__ = ("raw", "events", "conns", "refs", "stray", "unknown", "kind", "po")
 
     def __init__(self, raw):
         self.raw = raw
-        self.events, self.conns, self.refs, self.stray, self.unknown = [], {}, None, None, 0
+        self.events, self.conns, self.refs, self.stray, self.unknown, self.po = [], {}, None, None, 0, None
         if raw in ("ok", "bad-op") or raw.startswith("out ") or raw.startswith("end "):
             self.kind = raw.split()[0]
             return
@@ -61,9 +62,9 @@ class Line:
         ev = parts[0].split()
         i = 0
         while i < len(ev):
-            if ev[i] in ("new", "close", "gone", "kbd") and i + 1 < len(ev):
+            if ev[i] in ("new", "close", "gone", "kbd", "xnew", "xinit") and i + 1 < len(ev):
                 self.events.append((ev[i], ev[i + 1])); i += 2
-            elif ev[i] in ("hook", "ret", "fault", "uac") and i + 2 < len(ev):
+            elif ev[i] in ("hook", "ret", "fault", "uac", "xclose") and i + 2 < len(ev):
                 self.events.append((ev[i], ev[i + 1], ev[i + 2])); i += 3
             else:
                 self.events.append((ev[i],)); i += 1
@@ -77,6 +78,8 @@ class Line:
                 self.refs = [int(x) for x in t[5:].split(",")]
             elif t.startswith("stray="):
                 self.stray = int(t[6:])
+            elif t.startswith("po="):
+                self.po = t[3:]
             elif t.startswith("unknown="):
                 self.unknown = int(t[8:])
 
@@ -91,6 +94,10 @@ def strip_inputs(raw):
     while i < len(t):
         if t[i] == "fault":
             i += 3
+        elif t[i] == "xclose" and i + 2 < len(t) and t[i + 2] == "n":
+            # a redundant rfbCloseClient (several error paths call it twice) tells the extension again,
+            # without data: how often is not part of the comparison (the data hand-over is)
+            i += 3
         else:
             out.append(t[i]); i += 1
     return (" ".join(out) or "-") + " | " + rest
@@ -104,6 +111,7 @@ def oracle(script, impl, stderr="", faulted=()):
     if len(impl) != len(ops) + 1:
         return [("observation count %d != ops %d + end" % (len(impl), len(ops)), None)]
     hooked, seen, kicks, cleaned, did_shutdown, ftopen = set(), set(), {}, False, False, {}
+    xnew, xinit, xclosed = {}, {}, {}
     prev, prev_nscr = None, 0
     for op, raw in zip(ops, impl):
         t = op.split()
@@ -115,6 +123,13 @@ def oracle(script, impl, stderr="", faulted=()):
         for e in ln.events:
             if e[0] == "new": seen.add(e[1])
             if e[0] == "hook": hooked.add(e[1])
+            if e[0] == "xnew": xnew[e[1]] = xnew.get(e[1], 0) + 1
+            if e[0] == "xinit":
+                xinit[e[1]] = xinit.get(e[1], 0) + 1
+                if xinit[e[1]] > 1: bad.append(("extension init hook ran %d times for %s (op %r)" % (xinit[e[1]], e[1], op), e[1]))
+            if e[0] == "xclose" and e[2] == "d":
+                xclosed[e[1]] = xclosed.get(e[1], 0) + 1
+                if xclosed[e[1]] > xnew.get(e[1], 0): bad.append(("extension close hook got data %d times for %s (op %r)" % (xclosed[e[1]], e[1], op), e[1]))
             if e[0] == "uac": bad.append(("descriptor of %s used after close (%s) at op %r" % (e[1], e[2], op), e[1]))
             if e == ("gone", "?") or e[:2] == ("hook", "?"): bad.append(("callback for unknown client at op %r" % op, None))
             if e[0] == "pump-cap": bad.append(("event loop does not come to rest at op %r" % op, None))
@@ -137,6 +152,11 @@ def oracle(script, impl, stderr="", faulted=()):
                 want_g = 1 if c in hooked else 0
                 if s["g"] != want_g: bad.append(("%s is unlisted but gone callback ran %d times, expected %d (op %r)" % (c, s["g"], want_g, op), c))
                 if s["k"] != 1: bad.append(("%s is unlisted but its socket was closed %d times (op %r)" % (c, s["k"], op), c))
+                if xclosed.get(c, 0) != xnew.get(c, 0):
+                    bad.append(("%s is unlisted but its extension data was handed to the close hook %d times, allocated %d times (op %r)"
+                                % (c, xclosed.get(c, 0), xnew.get(c, 0), op), c))
+        if ln.po is not None and ln.po != "-" and not (ln.po in ln.conns and ln.conns[ln.po]["L"]):
+            bad.append(("screen->pointerClient is %s, not a listed client (op %r)" % (ln.po, op), None))
         if ln.refs is not None and sum(ln.refs) != nlisted:
             bad.append(("scaled-screen reference counts %r do not add up to the %d listed clients (op %r)" % (ln.refs, nlisted, op), None))
         if ln.refs is not None:
@@ -145,7 +165,7 @@ def oracle(script, impl, stderr="", faulted=()):
                 if m and (int(m.group(1)) >= len(ln.refs) or ln.refs[int(m.group(1))] < 1):
                     bad.append(("%s references a screen whose count is 0 (op %r)" % (c, op), c))
         for c, s in ln.conns.items():
-            if s["L"] and s["sock"] == "open": ftopen[c] = bool(re.search(r"f1e\d+$", s["res"]))
+            if s["L"] and s["sock"] == "open": ftopen[c] = bool(re.search(r"f1e\d+d\d+$", s["res"]))
             elif not s["L"]: ftopen[c] = False
         nft = sum(1 for v in ftopen.values() if v)
         if ln.stray is not None and ln.stray > nft:
@@ -222,7 +242,7 @@ def annotate(script, impl, benign_x=True, kind=None):
                 xs.append("%s:%s" % (c, fault_call[c]))
         for c, s in sorted(ln.conns.items()):
             if s["L"] and s["sock"] == "open":
-                rs.append("%s:%s" % (c, re.sub(r"^s\d+", "", re.sub(r"w\d+p\d+f\d+e\d+$", "", s["res"]))))
+                rs.append("%s:%s" % (c, re.sub(r"^s\d+", "", re.sub(r"w\d+p\d+f\d+e\d+d\d+$", "", s["res"]))))
         extra = ""
         if xs: extra += " X=" + ",".join(xs)
         if rs: extra += " R=" + ",".join(rs)
@@ -292,6 +312,8 @@ def check_script(ctx, h, d, script, variant, what, base=None):
             if not l.startswith("out "): continue
             c = l.split()[1]
             if c in res["faulted"] or c not in bo: continue
+            if re.search(r"^ftgo %s$" % c, script, re.M): continue   # a download gets one chunk per loop round
+            if re.search(r"^pw$", script, re.M) and re.search(r"^sec %s$" % c, script, re.M): continue  # random challenge
             same_life = bstate and mstate and bstate[-1].conns.get(c, {}).get("tok") == mstate[-1].conns.get(c, {}).get("tok")
             if same_life and not same_history(bstate, mstate, c):
                 same_life = False
@@ -320,7 +342,7 @@ def canon_impl(raw):
 def canon_model(raw):
     if raw.startswith("end "):
         return re.sub(r" defects=\S+", "", raw)
-    return raw
+    return strip_inputs(raw)
 
 
 # ------------------------------------------------------------------------------------ generators
@@ -329,7 +351,7 @@ class Gen:
 
     def __init__(self, rng, variant, faulty=False):
         self.rng, self.v, self.faulty = rng, variant, faulty
-        self.lines, self.c = [], []
+        self.lines, self.c, self.pw = [], [], False
 
     def emit(self, s):
         self.lines.append(s)
@@ -337,7 +359,8 @@ class Gen:
     def new_conn(self, hook=None, ws=0, nb=0):
         i = len(self.c)
         hook = hook or self.rng.choice(["accept"] * 6 + ["hold", "hold", "refuse"])
-        self.c.append({"phase": 0, "hook": hook, "queued": 0, "started": hook != "hold", "peer": True, "ws": ws})
+        self.c.append({"phase": 0, "hook": hook, "queued": 0, "started": hook != "hold", "peer": True, "ws": ws, "ft": False,
+                       "steps": ["ver", "sec"] + (["auth"] if self.pw else []) + ["init"]})
         s = "conn c%d hook=%s" % (i, hook)
         if ws: s += " ws=%d" % ws
         if nb: s += " nb=1"
@@ -349,19 +372,27 @@ class Gen:
         c = self.c[i]
         if not c["peer"]: return False
         if self.faulty and not c["started"] and c["queued"] >= 1: return False
-        if c["phase"] == 0: self.emit("ver c%d" % i)
-        elif c["phase"] == 1: self.emit("sec c%d" % i)
-        elif c["phase"] == 2:
+        if c["phase"] >= len(c["steps"]): return False
+        step = c["steps"][c["phase"]]
+        if step in ("ver", "auth") and self.rng.random() < 0.05:
+            self.emit("partial c%d" % i); c["peer"] = False      # silent in the middle of the message: timeout
+            return True
+        if step == "ver": self.emit("ver c%d" % i)
+        elif step == "sec": self.emit("sec c%d" % i)
+        elif step == "auth":
+            bad = self.rng.random() < 0.25
+            self.emit("auth c%d %s" % (i, "bad" if bad else "ok"))
+            if bad: c["peer"] = False        # the server hangs up on a wrong response: nothing follows
+        else:
             sh = shared if shared is not None else (0 if self.rng.random() < 0.25 else 1)
             self.emit("init c%d %d" % (i, sh))
-        else: return False
         c["phase"] += 1
         if not c["started"]: c["queued"] += 1
         return True
 
     def normal_op(self, i):
         c, r = self.c[i], self.rng
-        if not c["peer"] or c["phase"] < 3: return False
+        if not c["peer"] or c["phase"] < len(c["steps"]): return False
         if self.faulty and not c["started"] and c["queued"] >= 1: return False
         x = r.random()
         if x < 0.25: self.emit("enc c%d %s" % (i, r.choice(ENCS)))
@@ -372,10 +403,13 @@ class Gen:
             k = r.choice(REFUSED) if r.random() < 0.22 else r.choice([1, 2, 2, 3, 4, 0 if r.random() < 0.2 else 2])
             self.emit("scale c%d %d" % (i, k))
         elif x < 0.78: self.emit("pf c%d" % i)
-        elif x < 0.88: self.emit("key c%d" % i)
+        elif x < 0.84: self.emit("key c%d" % i)
+        elif x < 0.88: self.emit("ptr c%d %d" % (i, r.choice([1, 1, 0])))
         elif x < 0.92: self.emit("junk c%d" % i); c["peer"] = c["peer"]
         elif x < 0.95: self.emit("partial c%d" % i); c["peer"] = False   # nothing may follow half a message
-        elif x < 0.98 and (self.v[4] or r.random() < 0.25): self.emit("ft c%d" % i)
+        elif x < 0.98 and (self.v[4] or r.random() < 0.25):
+            if c["ft"] and r.random() < 0.7: self.emit("ftgo c%d" % i)
+            else: self.emit("ft c%d" % i); c["ft"] = True
         else: self.emit("key c%d" % i)
         if not c["started"]: c["queued"] += 1
         return True
@@ -385,6 +419,8 @@ class Gen:
         # triggers of defects the code under test still has are generated too, but rarely (the model
         # attributes those runs to the finding; every other run keeps a fully sensitive leak check)
         if r.random() < (0.25 if self.v[5] else 0.04): self.emit("ext")
+        if r.random() < 0.2: self.emit("pw"); self.pw = True
+        if r.random() < 0.1: self.emit("cursor")
         for _ in range(nops):
             x = r.random()
             if x < 0.16 and len(self.c) < 10:
@@ -414,6 +450,8 @@ class Gen:
                 self.emit("kbdclose c%d" % r.randrange(len(self.c)))
             elif x < 0.95 and len(self.c) >= 2:
                 a, b = r.sample(range(len(self.c)), 2); self.emit("gonekick c%d c%d" % (a, b))
+            elif x < 0.96:
+                self.emit("shutdown0")
             else:
                 self.emit("pump")
         for i in range(len(self.c)):
@@ -487,6 +525,26 @@ def scenario_scripts(variant):
     S["scale-share"] = W[:4] + ["enc c0 raw", "scale c0 2", "req c0", "conn c1 hook=accept", "ver c1", "sec c1", "init c1 1",
                             "scale c1 2", "req c1", "scale c1 200", "scale c1 3", "scale c1 64", "scale c1 2", "scale c1 100",
                             "closepeer c1", "draw 3"] + E
+    # the whole population at once: witness, scaled+resources, pointer owner, held (with queued input),
+    # mid-handshake in every state, WebSocket, downloading, extension data everywhere, one client closed
+    # by the application and not yet reaped -- then shutdown+cleanup / cleanup alone
+    POP = ["ext", "cursor"] + W[:4] + ["enc c0 raw", "scale c0 2", "req c0",
+           "conn c1 hook=accept", "ver c1", "sec c1", "init c1 1", "enc c1 tight", "scale c1 3", "req c1", "ptr c1 1",
+           "conn c2 hook=hold", "ver c2",
+           "conn c3 hook=accept",
+           "conn c4 hook=accept", "ver c4",
+           "conn c5 hook=accept", "ver c5", "sec c5",
+           "conn c6 hook=accept ws=1", "ver c6", "sec c6", "init c6 1", "enc c6 zrle", "req c6",
+           "conn c7 hook=accept", "ver c7", "sec c7", "init c7 1", "ft c7", "ftgo c7",
+           "conn c8 hook=accept", "ver c8", "sec c8", "init c8 1", "scale c8 2",
+           "out c0", "appclose c8"]
+    S["population-shutdown"] = POP + ["shutdown0", "shutdown", "cleanup", "end"]
+    S["population-cleanup"] = POP + ["cleanup", "end"]
+    S["handshake"] = ["conn c0 hook=accept", "ver c0", "sec c0", "init c0 1", "req c0", "shutdown", "cleanup", "end"]
+    S["handshake-auth"] = ["pw", "conn c0 hook=accept", "ver c0", "sec c0", "auth c0 ok", "init c0 1", "conn c1 hook=accept", "ver c1",
+                           "sec c1", "auth c1 bad", "conn c2 hook=accept", "ver c2", "sec c2", "partial c2", "conn c3 hook=accept",
+                           "partial c3", "shutdown", "cleanup", "end"]
+    S["download"] = W + ["conn c1 hook=accept", "ver c1", "sec c1", "init c1 1", "ft c1", "ftgo c1", "req c0", "pump", "closepeer c1"] + E
     S["cleanup-only"] = W + ["conn c1 hook=accept", "ver c1", "sec c1", "init c1 1", "enc c1 tight", "scale c1 2", "req c1",
                             "req c0", "out c0", "out c1", "cleanup", "end"]
     return {k: "\n".join(v) + "\n" for k, v in S.items()}
@@ -628,6 +686,10 @@ def run(ctx):
                 per = 8 if name.startswith("random") else 12
                 ks = sorted(set([0, nio - 1] + wr + ctx.rng.sample(range(nio), min(nio, per))))
                 kinds = None
+                if name.startswith("handshake"):
+                    # deterministic core: a client silent (stall => maxClientWait), gone (eof) or reset at EVERY
+                    # read and write of every handshake state
+                    ks, kinds = list(range(nio)), HARMFUL
             enum[name] = {"io_calls": nio, "indices": len(ks)}
             for k in ks:
                 for kind in (kinds or [ctx.rng.choice(HARMFUL), ctx.rng.choice(KINDS)]):
